@@ -1,11 +1,12 @@
 (* Props/C18.v — Update-attempt bookkeeping spans attempts and reboots.
-   PARTIAL at the level of theorems: the waited-for-reboot computation and the saturating counter are proved below.
-   The rules about first-seen time, the install-attempt counter, "finish time committed before the reboot question" and
-   "reported exactly once, then cleared" are checked on every implementation trace by the executable monitor step18
-   (Model/Monitors18.v), which simulates the storage view the machine reads, and by trace equality between model and
-   implementation on the storage / metric / installer projection.  That every MODEL trace is accepted by step18 is not
-   proved: the monitor's rules depend on values read back from storage, and the trace-Hoare framework (Proofs/Monitor.v)
-   speaks about the monitor's state only, not about the environment's store (DESIGN.md, "what is not proved"). *)
+   Proved: the waited-for-reboot computation, the saturating counter, and
+   C18_bookkeeping_monitor_accepts_every_model_trace: every trace of the model is accepted by the executable monitor
+   step18 (Model/Monitors18.v), for every app set whose ids do not collide with the five bookkeeping keys.  The monitor
+   keeps a ghost copy of the storage view the machine reads (a refused write changes nothing) and the proof links it to
+   the model's store (Proofs/MonitorL.v), so values read back from storage are covered too.
+   Restart ("survives restarts", "the first state machine started on that target version"): the monitor starts from the
+   store the machine is built on, so a history of runs is a sequence of accepted traces each starting from the
+   previous run's store; that the store survives is the Storage contract (trusted base). *)
 Require Import Verif.Model.Time Verif.Base.Bytes Verif.Model.Env Verif.Model.SM Verif.Proofs.SMPure.
 Open Scope Z_scope.
 
@@ -34,10 +35,30 @@ Proof. intros z H. unfold sat_inc_i64. destruct (z <? i64_max) eqn:E; [apply Z.l
 
 Print Assumptions C18_waited_for_reboot_value.
 
-(* the run-time monitor is not vacuous: it accepts a correct failed-then-counted install and rejects the variants *)
-Require Import Verif.Model.Monitors Verif.Model.Monitors18 Verif.Proofs.Monitor Verif.Model.Proto.
+(* ---- the monitor (Model/Monitors18.v step18) accepts every trace of the model ----
+   step18 demands, against its ghost copy of the stored values:
+     - the install-plan id is rewritten only for a different plan, and the first-seen time is written only together with
+       it, as the current time; the plan handed to the installer is the one on record (or has just been written);
+     - the successful-update-from-first-seen metric is the finish time minus the first-seen time on record for this plan;
+     - the attempts metric carries the stored failure count + 1 (saturating, as u64), is reported at most once per check
+       and exactly for installs in which an app failed (verdict: failure) or else an app was updated (verdict: success),
+       and is followed by the matching counter write (the new count) or removal (on success) before the result;
+     - after an install without a failed app, the finish time (the current time, microseconds) and the version the response
+       offers the system app are written and committed before the reboot-needed question is even asked;
+     - the waited-for-reboot duration is reported at most once, only if this machine was started on the recorded target
+       version, with exactly the value of C18_waited_for_reboot_value for the recorded finish time, the first clock
+       reading of this machine and the current reading, and is followed by the removal of both keys and a commit; the two
+       keys are removed on no other occasion. *)
+Require Import Verif.Model.Monitors Verif.Model.Monitors18 Verif.Proofs.Monitor Verif.Model.Proto Verif.Proofs.C18Proof.
+
+Theorem C18_bookkeeping_monitor_accepts_every_model_trace :
+  forall ep cfg url cup apps e, e_trace e = [] -> apps_free apps = true ->
+    accepts step18 (init18 cfg apps (e_store e)) (run_case ep cfg url cup apps e) = true.
+Proof. exact model_accepted_c18. Qed.
+
+(* the monitor is not vacuous: it accepts a correct failed-then-counted install and rejects the variants *)
 Section Examples.
-  Let q0 : q18 := {| m18 := [(K_FAILED_INSTALLS, VInt 2)]; osver18 := s2b "1.0"; sysid18 := Some (s2b "a"); clk18 := None; should18 := false; fin018 := 0;
+  Let q0 : q18 := {| m18 := [(K_FAILED_INSTALLS, VInt 2)]; osver18 := s2b "1.0"; sysid18 := s2b "a"; clk18 := None; should18 := false; fin018 := 0;
                      start18 := None; rep18 := false; todo18 := []; doc18 := None; planw18 := false; fs18 := None; perf18 := false; fin18 := 0%N;
                      attm18 := None; attw18 := None |}.
   Let failed := [{| ar_id := s2b "a"; ar_cohort := cohort_none; ar_uc := None; ar_result := AInstallPlanExecutionError |};
@@ -56,3 +77,5 @@ Section Examples.
     /\ accepts step18 q0 [AEvent (EvState (CheckingForUpdates ScheduledTask)); AEvent (EvResult (inr failed))] = false.
   Proof. vm_compute. repeat split; reflexivity. Qed.
 End Examples.
+
+Print Assumptions C18_bookkeeping_monitor_accepts_every_model_trace.
